@@ -3,6 +3,7 @@
    `true_stats cs` gives the aggregates of a call list as plain folds; `stats_correct cs s` says the
    w_st_* fields of state s are those aggregates (and chunk count = number of chunk indexes);
    `record_correct cs n st` says the same of a Statistics record, including its per-channel map. *)
+From Mcap Require ConstsTie LayoutTie DecisionTieW. (* regenerated ties to /repo's source that this property's model relies on *)
 From Coq Require Import List NArith ZArith Bool.
 From Coq.Strings Require Import Byte.
 From Mcap Require Import Bytes GoSem Records Writer WriterFactsA.
